@@ -1363,8 +1363,10 @@ class BaseGaussianState(BaseState):
                 cutoff=cutoff,
                 check_purity=False,
             )
-            rho = np.outer(psi, psi.conj())
-            return rho
+            # same index convention as the mixed case: rho[i_0, j_0, i_1, j_1, ...]
+            num = len(modes)
+            rho = np.multiply.outer(psi, psi.conj())
+            return rho.transpose([k for m in range(num) for k in (m, m + num)])
 
         return twq.density_matrix(mu, cov, hbar=self._hbar, normalize=True, cutoff=cutoff)
 
